@@ -1,1 +1,58 @@
-fn main() { println!("bgpfu-dst"); }
+//! bgpfu-dst: deterministic simulation with fault injection for bgpfu-rs.
+//!
+//!   bgpfu-dst check <ID> quick|thorough      run the batch, write evidence, exit 0/1/2
+//!   bgpfu-dst replay <file>                  re-execute a replay file (exit 1 = reproduced)
+//!   bgpfu-dst determinism <ID> [n]           execute n seeds twice, print a digest
+//!   bgpfu-dst worker ...                     (internal)
+
+mod core;
+mod driver;
+mod hashseed;
+mod props;
+mod rsim;
+mod ssim;
+mod xml;
+
+use std::path::Path;
+
+use crate::core::Tier;
+
+fn main() {
+    let args: Vec<String> = std::env::args().collect();
+    let code = match args.get(1).map(String::as_str) {
+        Some("check") => {
+            let Some(spec) = args.get(2).and_then(|id| props::lookup(id)) else {
+                eprintln!("unknown property");
+                std::process::exit(2);
+            };
+            let tier = std::env::var("VERIF_TIER").ok().and_then(|t| Tier::parse(&t)).or_else(|| args.get(3).and_then(|t| Tier::parse(t))).unwrap_or(Tier::Quick);
+            driver::check(spec, tier)
+        }
+        Some("worker") => {
+            let spec = props::lookup(&args[2]).expect("property");
+            let tier = Tier::parse(&args[3]).expect("tier");
+            let seed: u64 = args[4].parse().expect("seed");
+            let stripe: usize = args[5].parse().expect("stripe");
+            let jobs: usize = args[6].parse().expect("jobs");
+            let skip: usize = args[7].parse().expect("skip");
+            driver::worker(spec, tier, seed, stripe, jobs, skip, Path::new(&args[8]))
+        }
+        Some("replay") => driver::replay(Path::new(&args[2]), props::lookup),
+        Some("determinism") => {
+            let spec = props::lookup(&args[2]).expect("property");
+            let n = args.get(3).and_then(|n| n.parse().ok()).unwrap_or(2000);
+            driver::determinism(spec, Tier::Quick, n)
+        }
+        Some("list") => {
+            for p in props::all() {
+                println!("{} {} {}", p.id, p.simulator, p.level);
+            }
+            0
+        }
+        _ => {
+            eprintln!("usage: bgpfu-dst check <ID> quick|thorough | replay <file> | determinism <ID> [n] | list");
+            2
+        }
+    };
+    std::process::exit(code);
+}
